@@ -164,6 +164,7 @@ func runReplayPkg(pkg string, cases []*replayFile, idxs []int, workDir string) s
 			atomic.StoreUint64(&vJitState, uint64(r)*7919)
 			atomic.StoreUint32(&vJitOn, 1)
 		}
+		vTextShape = r % 3
 		last := r == repeat-1 || time.Since(start) > 45*time.Second
 		stop := vReplayOnce(i, model, f, last, class, id)
 		atomic.StoreUint32(&vJitOn, 0)
@@ -268,6 +269,9 @@ func TestVReplay(t *testing.T) {
 		rep := rf.Repeat
 		if rep < 1 || rf.Obligation.Class == "cover" {
 			rep = 1
+		}
+		if rep == 1 && rf.Obligation.Class != "cover" {
+			rep = 3 // one attempt per text shape (vTextShape)
 		}
 		switch rf.Obligation.Class {
 		case "deadlock", "unwind", "leak", "panic", "race":
